@@ -73,11 +73,28 @@ def suite_c03(r, n):
                 return ";".join(evs) + " R=" + res + "/" + e
             mwexpect = (trace(k1 + k2, "-" if cbase == "k" else "B", "a|"), trace(k3, "-" if pbase == "k" else "B", "a|m0"))
             meta.append((p, line, expect, "%s:%s:%s:%s%s%s" % (transport, proto, kind, "oneway" if m["oneway"] else "twoway", ":inherited" if inherited else "", ":void" if m["ret"] is None else ""), mwlines, mwexpect, (k1, k2, k3), (m["name"], "%s/%s" % skey, len(m["args"])), m["oneway"]))
+    # C14 through the emitted processor: unknown method name / unreadable arguments (oracle only)
+    rawmeta = []
+    for p in progs:
+        for skey in list(p.services)[:2]:
+            for (dkey, m) in p.all_methods(skey)[:3]:
+                for kind in ("unknown", "badargs", "intact"):
+                    mkey = "%s/%s_%s" % (dkey[0], dkey[1], m["name"])
+                    jobs.append(("raw", "p%d" % p.pid, "%s/%s" % skey, mkey, "%s|%s" % (kind, dump_val(gen_args(r, p, m)))))
+                    rawmeta.append((kind, m["oneway"], mkey))
     res, err = build_and_run(progs, jobs)
     if res is None:
         OracleFail("valid IDL with services was not compiled to Go that builds", {"op": "build", "detail": err[:3000]})
         Stat("evaluations"); Finish(); return
     if err: OracleFail("the runner crashed while executing generated code", {"op": "run", "detail": err[:2000]})
+    for (kind, oneway, mkey), real in zip(rawmeta, (res or [])[len(meta):]):
+        Stat("raw:" + kind); Stat("evaluations")
+        if kind == "unknown": want = "calls=0 reply=EXCEPTION:1 opid=same"            # UNKNOWN_METHOD, handler not invoked
+        elif kind == "badargs": want = "calls=0 reply=EXCEPTION:7 opid=same"          # PROTOCOL_ERROR (also for oneway: the emitted code answers)
+        else: want = "calls=1 reply=none opid=none err=ok" if oneway else "calls=1 reply=REPLY opid=same"
+        if real != want:
+            OracleFail("the emitted processor did not answer a request exactly once with the appropriate well-formed reply",
+                       {"op": "g14", "case": "%s:%s:%s" % (kind, "oneway" if oneway else "twoway", mkey), "got": str(real)[:300], "want": want})
     for (p, line, expect, tag, mwlines, mwexpect, ks, hinfo, oneway_m), real in zip(meta, res):
         if real is None: real = "no-result"
         segs = real.split(" || ")
